@@ -381,8 +381,13 @@ fn part_iv(ctx: &mut Ctx) {
                 ctx.guard("ill-typed-call");
                 let mut batch: Vec<String> = Vec::new();
                 let mut all: Vec<Vec<String>> = Vec::new();
-                crate::explore::seqs_exact(ATOMS.len(), ar, |idx| {
-                    let args: Vec<&str> = idx.iter().map(|i| ATOMS[*i]).collect();
+                // the general atoms plus the ones that matter for this function in particular (patterns, formats, separators)
+                let mut atoms: Vec<&str> = ATOMS.to_vec();
+                if ar <= 2 {
+                    atoms.extend(super::c04::extra_atoms(f.name));
+                }
+                crate::explore::seqs_exact(atoms.len(), ar, |idx| {
+                    let args: Vec<&str> = idx.iter().map(|i| atoms[*i]).collect();
                     // a count beyond the property's bound of 10^4 items is resource exhaustion where the count IS the size asked for
                     if f.name == "range" && (args[0] == "9007199254740992" || args[0] == "18446744073709551615") {
                         return;
